@@ -579,6 +579,7 @@ class Crate:
             if "body" in b:
                 lower_while_next(b["body"])
                 lower_let_else_panic(b["body"])
+                lower_let_else_return(b["body"])
                 lower_match_stmt(b["body"])
                 merge_guarded_arms(b["body"])
                 if b.get("dk") in ("Fn", "AssocFn"):
@@ -1154,6 +1155,52 @@ def lower_let_else_panic(root):
         sub = p["ps"][0]
         n["init"] = {"k": "MethodCall", "name": "expect", "callee": "std::%s::%s::<T>::expect" % (which.lower(), which), "recv": n["init"],
                      "args": [{"k": "Lit", "lk": "str", "v": "", "ty": "&str", "sp": n.get("sp", "")}], "ty": sub.get("ty", ""), "sp": n["init"].get("sp", n.get("sp", ""))}
+        n["pat"] = sub
+        del n["els"]
+
+
+def lower_let_else_return(root):
+    """`let Some(x) = o else { return Err(e) };`  is  `let x = o.ok_or(e)?;`   and   `.. else { return None };`  is  `let x = o?;`
+    (the same value on the same condition, the same early exit with the same value on the other)"""
+    def only_return(blk):
+        b = blk.get("b", blk)
+        items = [st.get("e") for st in b.get("stmts", []) if st.get("k") in ("SSemi", "SExpr")]
+        if len(items) != len(b.get("stmts", [])):
+            return None
+        if b.get("expr") is not None:
+            items.append(b["expr"])
+        if len(items) != 1:
+            return None
+        e = strip(items[0])
+        if isinstance(e, dict) and e.get("k") == "Ret" and "e" in e:
+            return strip(e["e"])
+        return None
+
+    def question_mark(operand, ty, sp):
+        return {"k": "Match", "src": "TryDesugar(lowered let-else)", "scrut": {"k": "Call", "callee": "std::ops::Try::branch", "dk": "AssocFn", "args": [operand],
+                                                                          "ty": "std::ops::ControlFlow<?, ?>", "sp": sp, "xk": "desugar:QuestionMark"},
+                "arms": [], "ty": ty, "sp": sp}
+    for n in walk(root):
+        if n.get("k") != "SLet" or "els" not in n or "init" not in n:
+            continue
+        p = n["pat"]
+        if p.get("k") != "PTupleStruct" or len(p.get("ps", [])) != 1 or not str(p.get("path", "")).endswith("::Some"):
+            continue
+        sub = p["ps"][0]
+        if sub.get("k") not in ("Bind", "Wild"):
+            continue
+        r = only_return(n["els"])
+        if r is None:
+            continue
+        sp = n.get("sp", "")
+        if r.get("k") == "Path" and str(r.get("path", "")).endswith("::None"):
+            n["init"] = question_mark(n["init"], sub.get("ty", ""), sp)
+        elif r.get("k") == "Call" and str(r.get("callee", "")).endswith("::Err") and len(r.get("args", [])) == 1:
+            ok_or = {"k": "MethodCall", "name": "ok_or", "callee": "std::option::Option::<T>::ok_or", "recv": n["init"], "args": [r["args"][0]],
+                     "ty": "std::result::Result<?, ?>", "sp": sp}
+            n["init"] = question_mark(ok_or, sub.get("ty", ""), sp)
+        else:
+            continue
         n["pat"] = sub
         del n["els"]
 
